@@ -301,3 +301,56 @@ def calls_to(g, defs, *names):
         t = call_targets(x, defs)
         return bool(t) and all(any(n == m or n.endswith('.' + m) for m in names) for n in t)
     return g.find(hit)
+
+
+def factors(e):
+    """sorted texts of the factors of a product (a * b * c in any grouping / order); a non-product is its own single factor"""
+    out = []
+
+    def rec(x):
+        if isinstance(x, ast.BinOp) and isinstance(x.op, ast.Mult):
+            rec(x.left)
+            rec(x.right)
+        else:
+            out.append(ast.unparse(x).replace(' ', ''))
+    rec(e)
+    return sorted(out)
+
+
+def terms(e):
+    """the summands of a sum (a + b + c in any grouping) as expressions"""
+    out = []
+
+    def rec(x):
+        if isinstance(x, ast.BinOp) and isinstance(x.op, ast.Add):
+            rec(x.left)
+            rec(x.right)
+        else:
+            out.append(x)
+    rec(e)
+    return out
+
+
+def sum_of_products(e):
+    """canonical form of a sum of products: sorted list of factor lists (order of summands and factors does not matter)"""
+    return sorted(factors(t) for t in terms(e))
+
+
+def tiles_pattern_facts(tp):
+    """MetaGrid._tiles_pattern: the two nested loops around the single yield of (tiles[<index>], (<x>, <y>)) in closed form ->
+    dict(outer_iter, inner_iter, row, col, index, x, y) with index / x / y as canonical sums of products, or None"""
+    from .cfg import enclosing
+    ys = [x for x in tp.walk() if isinstance(x, ast.Yield)]
+    if len(ys) != 1 or not isinstance(ys[0].value, ast.Tuple) or len(ys[0].value.elts) != 2:
+        return None
+    inner = enclosing(ys[0], ast.For)
+    outer = enclosing(inner, ast.For) if inner is not None else None
+    if inner is None or outer is None or not isinstance(inner.target, ast.Name) or not isinstance(outer.target, ast.Name):
+        return None
+    cf = tp.canon
+    pair = cf.expr(ys[0].value)
+    t, off = pair.elts
+    if not (isinstance(t, ast.Subscript) and isinstance(off, ast.Tuple) and len(off.elts) == 2):
+        return None
+    return {'outer_iter': cf.text(outer.iter), 'inner_iter': cf.text(inner.iter), 'row': outer.target.id, 'col': inner.target.id,
+            'seq': ast.unparse(t.value), 'index': sum_of_products(t.slice), 'x': sum_of_products(off.elts[0]), 'y': sum_of_products(off.elts[1])}
